@@ -289,8 +289,19 @@ def run(case):
                     bad = oracle.em_motl_mismatch(f"part_{int(v)}.em", p.df)
                     if not out.check(bad is None, f"split:part_file_{bad}", f"step {step}: part_{int(v)}.em"):
                         return out
+            # two live results: the pieces of a second, identical request are edited in place; neither the source list nor the
+            # pieces of the first request may follow
+            ok2, parts2 = call(out, "split_by_feature", lambda: m.split_by_feature(f))
+            if ok2:
+                for p2 in parts2:
+                    _faults.scribble(p2)
+                if not out.check(m.df.equals(before), "split:editing_a_piece_changed_the_source_list", f"step {step}: {len(dv)} piece(s)"):
+                    return out
+                for v, p in zip(dv, parts):
+                    if not same_rows(out, p.df, [r_ for r_ in rows if norm(r_[IX[f]]) == v], "split:editing_a_piece_of_a_second_call_changed_the_first", step):
+                        return out
             for v, p in list(zip(dv, parts))[:2]:
-                push(Motl(p.df.copy()), [list(r_) for r_ in rows if norm(r_[IX[f]]) == v])
+                push(p, [list(r_) for r_ in rows if norm(r_[IX[f]]) == v])  # the returned piece itself, as a caller would keep it
         elif k == "intersection":
             j = o["j"] % len(real)
             f = o["field"]
